@@ -36,6 +36,9 @@ type C04Scenario struct {
 	// it cancels the publish context, so every handler after it is skipped "because the context is
 	// already cancelled" - which must not use up a Once handler.
 	Canceller bool `json:"canceller,omitempty"`
+	// Panics: every Once handler panics at the end of its (single) invocation; the bus recovers it, and the
+	// handler stays used up - for concurrent publishers that took their snapshot before, too.
+	Panics bool `json:"panics,omitempty"`
 }
 
 func genC04(rt *rapid.T) core.Scenario {
@@ -89,6 +92,7 @@ func genC04(rt *rapid.T) core.Scenario {
 			}
 		}
 	}
+	sc.Panics = rapid.IntRange(0, 3).Draw(rt, "panics") == 3
 	sc.Tape = core.DrawTape(rt, 300)
 	return sc
 }
@@ -119,6 +123,9 @@ func (sc *C04Scenario) Execute(t *testing.T) *core.Outcome {
 				simrt.Yield(siteHandler)
 			}
 			w.Rec.Add("exit", k, id, "")
+			if sc.Panics && k < len(sc.Regs) && sc.Regs[k].Opts.Once && !simrt.Dying() {
+				panic(fmt.Sprintf("once handler %d panics", k))
+			}
 		}
 		if sc.Canceller {
 			seenT := map[int]bool{}
